@@ -21,6 +21,10 @@
 #include <tlx/digest/sha512.hpp>
 #include <tlx/siphash.hpp>
 
+#include <sys/mman.h>
+
+static std::vector<std::string> g_trace;   // what the running case is doing, printed if it dies
+
 using verif::Rng;
 
 static FILE* g_log = nullptr;
@@ -216,16 +220,70 @@ static void mode_long(Rng& rng, uint64_t) {
     verif::count("long_messages");
 }
 
+// One process() call carrying 2^29 bytes or more (2^32 bits: the bit counter must not be kept in 32
+// bits anywhere) against the same message fed in 1 MiB + 1 byte calls, and against python hashlib.
+// The message is all-zero and lives in untouched anonymous pages, so it costs no memory.
+template <typename H>
+static void huge_one(const Algo<H>& A, const char* msg, size_t L, Rng& rng) {
+    H one;
+    one.process(msg, (std::uint32_t)L);
+    std::string raw = one.digest();
+    H chunked;
+    size_t cs = (1u << 20) + 1 + rng.below(4096), fed = 0;
+    while (fed < L) { size_t n = std::min(cs, L - fed); chunked.process(msg + fed, (std::uint32_t)n); fed += n; }
+    ++g_chunkings;
+    if (chunked.digest() != raw)
+        verif::fail(std::string("C14:") + A.name + ":huge-single-call", std::string(A.name) + ": one process() call of " + std::to_string(L) +
+                    " zero bytes gives " + hexlc(raw) + ", calls of " + std::to_string(cs) + " bytes give " + hexlc(chunked.digest()));
+    H two;                              // a short call first, so that the big one starts with a partly filled block
+    size_t a = 1 + rng.below(A.block - 1);
+    two.process(msg, (std::uint32_t)a);
+    two.process(msg + a, (std::uint32_t)(L - a));
+    ++g_chunkings;
+    if (two.digest() != raw)
+        verif::fail(std::string("C14:") + A.name + ":huge-after-short-call", std::string(A.name) + ": " + std::to_string(a) + " bytes, then " +
+                    std::to_string(L - a) + " zero bytes in one call differs from the single call");
+    if (g_log) { fprintf(g_log, "%s %d %llu %zu %s\n", A.name, 1, 0ull, L, hexlc(raw).c_str()); ++g_records; }
+    verif::count(std::string("huge_single_calls:") + A.name);
+}
+
+static void mode_huge(Rng& rng, uint64_t index) {
+    static const size_t P = (size_t)1 << 29;
+    static const std::vector<size_t> LS = { P + 63, P, P + 64 + 1, P + P / 2 + 5, 2 * P + 3, 4 * P - 1 };
+    size_t L = LS[index % LS.size()];
+    void* mem = mmap(nullptr, L, PROT_READ, MAP_PRIVATE | MAP_ANONYMOUS | MAP_NORESERVE, -1, 0);
+    if (mem == MAP_FAILED) { verif::count("huge_mmap_failed"); return; }
+    const char* msg = static_cast<const char*>(mem);
+    verif::context() = "huge-single-call";
+    g_trace.assign(1, "one process() call of " + std::to_string(L) + " bytes");
+    huge_one(A_MD5, msg, L, rng);
+    huge_one(A_SHA1, msg, L, rng);
+    huge_one(A_SHA256, msg, L, rng);
+    huge_one(A_SHA512, msg, L, rng);
+    munmap(mem, L);
+    verif::cover("huge:len=2^29*" + std::to_string(L / P) + "+" + std::to_string(L % P));
+    verif::count("huge_messages");
+    verif::sample("huge: one process() call of " + std::to_string(L) + " zero bytes vs ~1 MiB calls vs short call + rest, 4 digests");
+}
+
 /******************************************************************************/
 
 static void mode_sip(Rng& rng, uint64_t index) {
-    uint8_t key[16];
-    for (int i = 0; i < 16; ++i) key[i] = (uint8_t)rng.next();
-    if (index == 0) memset(key, 0, 16);
-    if (index == 1) memset(key, 0xff, 16);
-    if (index == 2) for (int i = 0; i < 16; ++i) key[i] = (uint8_t)i;
+    uint8_t key0[16];
+    for (int i = 0; i < 16; ++i) key0[i] = (uint8_t)rng.next();
+    if (index == 0) memset(key0, 0, 16);
+    if (index == 1) memset(key0, 0xff, 16);
+    if (index == 2) for (int i = 0; i < 16; ++i) key0[i] = (uint8_t)i;
     alignas(64) static uint8_t buf[16 + 160];
+    // the key is a plain byte pointer: it is handed over at every offset 0..15 from a 64-byte boundary
+    alignas(64) static uint8_t keybuf[16 + 16];
     for (size_t len = 0; len <= 129; ++len) {
+        size_t koff = (len + index) % 16;
+        memset(keybuf, 0x5A, sizeof(keybuf));
+        memcpy(keybuf + koff, key0, 16);
+        const uint8_t* key = keybuf + koff;
+        verif::context() = "siphash";
+        g_trace.assign(1, "siphash with key at 64-byte boundary + " + std::to_string(koff) + ", message length " + std::to_string(len));
         int kind = (int)rng.pick(std::vector<int>{ 0, 0, 4, 4, 2, 1 });
         uint64_t mseed = rng.next() >> 8;
         std::string m = gen_message(kind, mseed, len);
@@ -274,7 +332,7 @@ static void mode_sip(Rng& rng, uint64_t index) {
     verif::cover(std::string("sip:key=") + (index < 3 ? "special" + std::to_string(index) : "random"));
     verif::count("siphash_keys");
     if (verif::want_sample(1))
-        verif::sample("siphash key " + verif::hex_bytes(key, 16) + ": lengths 0..129 x offsets 0..15, plain vs sse2 vs siphash()");
+        verif::sample("siphash key " + verif::hex_bytes(key0, 16) + " (at address offsets 0..15): lengths 0..129 x offsets 0..15, plain vs sse2 vs siphash()");
 }
 
 static void run_case(Rng& rng, uint64_t index) {
@@ -282,12 +340,15 @@ static void run_case(Rng& rng, uint64_t index) {
     uint64_t c0 = g_chunkings;
     if (mode == "len") mode_len(rng, index);
     else if (mode == "long") mode_long(rng, index);
+    else if (mode == "huge") mode_huge(rng, index);
     else mode_sip(rng, index);
     verif::count("chunkings_compared", g_chunkings - c0);
 }
 
 static void init() {
     verif::property_id() = "C14";
+    verif::live_trace() = &g_trace;
+    verif::death_extra() = verif::print_live_trace;
     if (!verif::st().out.empty()) {
         g_log = fopen((verif::st().out + ".log").c_str(), "w");
         if (g_log) setvbuf(g_log, nullptr, _IOLBF, 0);
